@@ -438,9 +438,11 @@ Lemma stream_q_inv ivs : forall ivs0 sp E q,
 Proof.
   induction ivs as [|[s e] r IH]; intros ivs0 sp E q Hinv Hne Hso Hsp.
   - exists sp. cbn. now rewrite !app_nil_r.
-  - cbn [stream_q]. destruct (update_queues s e q) as [rd q1] eqn:Hu.
+  - inversion Hne as [|? ? Hne1 Hne']; subst. unfold nonempty_iv in Hne1. cbn [fst snd] in Hne1.
+    cbn [stream_q]. destruct (Qle_b_spec e s) as [Hes|_]; [lra|].
+    destruct (update_queues s e q) as [rd q1] eqn:Hu.
     destruct (stream_q q1 r) as [em q2] eqn:Hst. cbn [fst snd].
-    inversion Hne as [|? ? Hne1 Hne']; subst. inversion Hso as [|? ? Hso' Hall]; subst.
+    inversion Hso as [|? ? Hso' Hall]; subst.
     inversion Hsp as [|? ? Hsp1 Hsp']; subst. cbn [fst] in Hsp1.
     assert (Hi : inv (ivs0 ++ [(s, e)]) s (E ++ rd) q1) by (eapply inv_step; eassumption).
     destruct (IH (ivs0 ++ [(s, e)]) s (E ++ rd) q1 Hi Hne' Hso') as [sp' Hfin].
@@ -465,11 +467,12 @@ Record series_ok (ivs : list (Q * Q)) (W : list bp) : Prop := mkOk {
   ok_sorted : tsorted W;                                             (* strictly increasing times *)
   ok_den : forall t, den 0 W t = count_at ivs t;                     (* right at every time *)
   ok_samples : forall t c, In (t, c) W -> c = count_at ivs t;        (* right at every sample *)
-  ok_cover : forall iv, In iv ivs -> has_time (fst iv) W /\ has_time (snd iv) W;
+  ok_cover : forall iv, In iv ivs -> nonempty_iv iv -> has_time (fst iv) W /\ has_time (snd iv) W;
   ok_last0 : lastc 0 W = 0;                                          (* ends at 0 *)
-  ok_empty : ivs = [] -> W = [] }.
+  ok_empty : Forall (fun iv => ~ nonempty_iv iv) ivs -> W = [] }.
 
-Theorem stream_q_correct ivs :
+(* first for streams of non-empty intervals only ... *)
+Lemma stream_q_correct_ne ivs :
   Forall nonempty_iv ivs -> StronglySorted start_le ivs ->
   series_ok ivs (fst (stream_q [] ivs) ++ snd (stream_q [] ivs)).
 Proof.
@@ -480,16 +483,76 @@ Proof.
     + intros t c [].
     + intros iv [].
     + reflexivity.
-    + reflexivity.
-  - cbn [stream_q update_queues]. destruct (stream_q [(s, 1); (e, 0)] r) as [em q2] eqn:Hst.
+    + intros _. reflexivity.
+  - inversion Hne as [|? ? Hne1 Hne']; subst. inversion Hso as [|? ? Hso' Hall]; subst.
+    assert (Hse : (s < e)%Q) by exact Hne1.
+    cbn [stream_q update_queues]. destruct (Qle_b_spec e s) as [Hes|_]; [lra|].
+    destruct (stream_q [(s, 1); (e, 0)] r) as [em q2] eqn:Hst.
     cbn [fst snd app].
-    inversion Hne as [|? ? Hne1 Hne']; subst. inversion Hso as [|? ? Hso' Hall]; subst.
     destruct (stream_q_inv r [(s, e)] s [] [(s, 1); (e, 0)] (inv_first s e Hne1) Hne' Hso') as [sp' H].
     { eapply Fimp; [exact Hall|]. unfold start_le. cbn. auto. }
     rewrite Hst in H. cbn [fst snd app] in H. destruct H as [H1 H2 H3 H4 H5].
     constructor; try assumption.
     + intros t c Hin. rewrite <- H2. symmetry. now apply den_at_sample.
-    + discriminate.
+    + intros iv Hin _. now apply H4.
+    + intros Hall0. inversion Hall0 as [|? ? Hn _]; subst. contradiction.
+Qed.
+
+(* ... then for any stream: intervals with end <= start are skipped by the guard and count nowhere *)
+Definition ne_b (iv : Q * Q) : bool := negb (Qle_b (snd iv) (fst iv)).
+Lemma ne_b_spec iv : reflect (nonempty_iv iv) (ne_b iv).
+Proof.
+  unfold ne_b, nonempty_iv. destruct (Qle_b_spec (snd iv) (fst iv)); cbn; constructor; lra.
+Qed.
+
+Lemma stream_q_skip ivs : forall q, stream_q q ivs = stream_q q (filter ne_b ivs).
+Proof.
+  induction ivs as [|[s e] r IH]; intros q; [reflexivity|].
+  cbn [stream_q filter]. unfold ne_b at 1. cbn [fst snd].
+  destruct (Qle_b e s) eqn:Hg; cbn [negb].
+  - apply IH.
+  - cbn [stream_q]. rewrite Hg. destruct (update_queues s e q) as [rd q1]. now rewrite IH.
+Qed.
+
+Lemma inside_ne t iv : inside t iv = true -> ne_b iv = true.
+Proof.
+  unfold inside. intros H. apply andb_prop in H as [H1 H2].
+  destruct (Qle_b_spec (fst iv) t); [|discriminate]. destruct (Qlt_b_spec t (snd iv)); [|discriminate].
+  destruct (ne_b_spec iv) as [|Hn]; [reflexivity|]. exfalso. apply Hn. unfold nonempty_iv. lra.
+Qed.
+Lemma count_at_skip ivs t : count_at ivs t = count_at (filter ne_b ivs) t.
+Proof.
+  unfold count_at. f_equal. f_equal. induction ivs as [|iv r IH]; [reflexivity|]. cbn [filter].
+  destruct (ne_b iv) eqn:Hn; cbn [filter].
+  - destruct (inside t iv); now rewrite IH.
+  - destruct (inside t iv) eqn:Hi; [apply inside_ne in Hi; congruence|exact IH].
+Qed.
+Lemma ssorted_filter {A} (R : A -> A -> Prop) (f : A -> bool) l :
+  StronglySorted R l -> StronglySorted R (filter f l).
+Proof.
+  induction 1 as [|x l Hs IH Hx]; cbn; [constructor|].
+  destruct (f x); [|exact IH]. constructor; [exact IH|].
+  apply Forall_forall. intros y Hy. apply filter_In in Hy. rewrite Forall_forall in Hx. apply Hx, Hy.
+Qed.
+
+Theorem stream_q_correct ivs :
+  StronglySorted start_le ivs ->
+  series_ok ivs (fst (stream_q [] ivs) ++ snd (stream_q [] ivs)).
+Proof.
+  intros Hso. rewrite stream_q_skip.
+  assert (H : series_ok (filter ne_b ivs)
+                (fst (stream_q [] (filter ne_b ivs)) ++ snd (stream_q [] (filter ne_b ivs)))).
+  { apply stream_q_correct_ne; [|now apply ssorted_filter].
+    apply Forall_filter. intros iv Hiv. now destruct (ne_b_spec iv). }
+  destruct H as [H1 H2 H3 H4 H5 H6]. constructor.
+  - exact H1.
+  - intros t. rewrite count_at_skip. apply H2.
+  - intros t c Hin. rewrite count_at_skip. now apply H3.
+  - intros iv Hin Hne. apply H4; [|exact Hne]. apply filter_In. split; [exact Hin|].
+    now destruct (ne_b_spec iv).
+  - exact H5.
+  - intros Hall. apply H6. apply Forall_forall. intros iv Hiv. apply filter_In in Hiv as [Hin _].
+    rewrite Forall_forall in Hall. now apply Hall.
 Qed.
 
 (* ------------------------------------------------------------------ 6. the dict of queues *)
@@ -533,6 +596,21 @@ Lemma q_get_none p qs : ~ In p (map fst qs) -> q_get p qs = None.
 Proof.
   induction qs as [|[k w] r IH]; cbn; intros H; [reflexivity|].
   destruct (k =? p) eqn:E; [apply Z.eqb_eq in E; subst; tauto|]. apply IH. tauto.
+Qed.
+
+Lemma q_get_in p qs v : q_get p qs = Some v -> In p (map fst qs).
+Proof.
+  induction qs as [|[k w] r IH]; cbn; [discriminate|].
+  destruct (k =? p) eqn:E; [apply Z.eqb_eq in E; auto|]. intros H. right. now apply IH.
+Qed.
+Lemma nodup_touch p qs : NoDup (map fst qs) -> NoDup (map fst (q_touch p qs)).
+Proof. unfold q_touch. destruct (q_get p qs); [auto|apply nodup_set]. Qed.
+Lemma qof_touch p p' qs : qof p' (q_touch p qs) = qof p' qs.
+Proof.
+  unfold q_touch. destruct (q_get p qs) eqn:H; [reflexivity|].
+  destruct (Z.eq_dec p' p) as [->|Hne].
+  - rewrite qof_set_same. unfold qof. now rewrite H.
+  - now apply qof_set_other.
 Qed.
 
 Lemma samples_of_app p A B : samples_of p (A ++ B) = samples_of p A ++ samples_of p B.
@@ -596,24 +674,39 @@ Proof.
     unfold step in Hs. unfold is_prep_ev. cbn [filter List.concat].
     destruct (classify e) as [[[s e']|]|] eqn:Hc; [| |discriminate].
     + (* a Prep slice *)
-      unfold create_counter in Hs. destruct (update_queues s e' (qof (e_pid e) qs)) as [ready nq] eqn:Hu.
-      inversion Hs; subst qs1 o. clear Hs.
-      destruct (IH _ _ _ Hr (nodup_set _ _ _ Hnd)) as (Hn2 & Hp2 & Hq2).
-      split; [exact Hn2|]. split.
-      * rewrite passed_app, Hp2. destruct keep; cbn [orb negb passed flat_map app].
-        -- change (flat_map _ (cnts (e_pid e) ready)) with (passed (cnts (e_pid e) ready)).
-           now rewrite passed_cnts.
-        -- now rewrite passed_cnts.
-      * intros p. rewrite samples_of_app, preps_of_cons, Hc. destruct (Hq2 p) as [Ha Hb].
-        assert (Hsm : samples_of p (if keep then OPass e :: cnts (e_pid e) ready else cnts (e_pid e) ready)
-                      = if e_pid e =? p then ready else []).
-        { destruct keep; [|apply samples_of_cnts].
-          change (samples_of p (OPass e :: ?l)) with (samples_of p l). apply samples_of_cnts. }
-        rewrite Hsm. destruct (e_pid e =? p) eqn:E.
-        -- apply Z.eqb_eq in E. subst p. cbn [stream_q]. rewrite Hu.
-           rewrite qof_set_same in Ha, Hb.
-           destruct (stream_q nq (preps_of (e_pid e) r)) as [em q2]. cbn [fst snd] in *. now subst.
-        -- apply Z.eqb_neq in E. rewrite qof_set_other in Ha, Hb by congruence. cbn [app]. split; assumption.
+      unfold create_counter in Hs.
+      assert (Hnd0 : NoDup (map fst (q_touch (e_pid e) qs))) by now apply nodup_touch.
+      destruct (Qle_b e' s) eqn:Hg.
+      * (* empty interval: only the pid's queue entry is created *)
+        inversion Hs; subst qs1 o. clear Hs.
+        destruct (IH _ _ _ Hr Hnd0) as (Hn2 & Hp2 & Hq2).
+        split; [exact Hn2|]. split.
+        -- rewrite passed_app, Hp2. destruct keep; reflexivity.
+        -- intros p. rewrite samples_of_app, preps_of_cons, Hc. destruct (Hq2 p) as [Ha Hb].
+           rewrite qof_touch in Ha, Hb.
+           assert (Hsm : samples_of p (if keep then [OPass e] else []) = []) by (destruct keep; reflexivity).
+           rewrite Hsm. cbn [app]. destruct (e_pid e =? p); [|split; assumption].
+           cbn [stream_q]. rewrite Hg. split; assumption.
+      * destruct (update_queues s e' (qof (e_pid e) (q_touch (e_pid e) qs))) as [ready nq] eqn:Hu.
+        rewrite qof_touch in Hu.
+        inversion Hs; subst qs1 o. clear Hs.
+        destruct (IH _ _ _ Hr (nodup_set _ _ _ Hnd0)) as (Hn2 & Hp2 & Hq2).
+        split; [exact Hn2|]. split.
+        -- rewrite passed_app, Hp2. destruct keep; cbn [orb negb passed flat_map app].
+           ++ change (flat_map _ (cnts (e_pid e) ready)) with (passed (cnts (e_pid e) ready)).
+              now rewrite passed_cnts.
+           ++ now rewrite passed_cnts.
+        -- intros p. rewrite samples_of_app, preps_of_cons, Hc. destruct (Hq2 p) as [Ha Hb].
+           assert (Hsm : samples_of p (if keep then OPass e :: cnts (e_pid e) ready else cnts (e_pid e) ready)
+                         = if e_pid e =? p then ready else []).
+           { destruct keep; [|apply samples_of_cnts].
+             change (samples_of p (OPass e :: ?l)) with (samples_of p l). apply samples_of_cnts. }
+           rewrite Hsm. destruct (e_pid e =? p) eqn:E.
+           ++ apply Z.eqb_eq in E. subst p. cbn [stream_q]. rewrite Hg, Hu.
+              rewrite qof_set_same in Ha, Hb.
+              destruct (stream_q nq (preps_of (e_pid e) r)) as [em q2]. cbn [fst snd] in *. now subst.
+           ++ apply Z.eqb_neq in E. rewrite qof_set_other, qof_touch in Ha, Hb by congruence.
+              cbn [app]. split; assumption.
     + (* passed through *)
       inversion Hs; subst qs1 o. clear Hs.
       destruct (IH _ _ _ Hr Hnd) as (Hn2 & Hp2 & Hq2).
@@ -639,15 +732,11 @@ Proof.
 Qed.
 
 (* ------------------------------------------------------------------ 7. main lemmas *)
-(* hypotheses of the property for pid p *)
-Definition pid_ok (evs : list ev) (p : Z) : Prop :=
-  Forall nonempty_iv (preps_of p evs) /\ StronglySorted start_le (preps_of p evs).
-
 Theorem counter_correct keep evs r p :
-  run_stage keep evs = Ok r -> pid_ok evs p ->
+  run_stage keep evs = Ok r -> StronglySorted start_le (preps_of p evs) ->
   series_ok (preps_of p evs) (samples_of p (all_out r)).
 Proof.
-  intros Hr [Hne Hso]. destruct (run_stage_proj keep evs r Hr) as [_ Hs]. rewrite Hs.
+  intros Hr Hso. destruct (run_stage_proj keep evs r Hr) as [_ Hs]. rewrite Hs.
   now apply stream_q_correct.
 Qed.
 
@@ -667,30 +756,47 @@ Qed.
 (* the statement of C13 for one pid, spelled out *)
 Theorem counter_correct_full keep evs r p :
   run_stage keep evs = Ok r ->
-  Forall (fun iv => (fst iv < snd iv)%Q) (preps_of p evs) ->
   StronglySorted (fun a b => (fst a <= fst b)%Q) (preps_of p evs) ->
   let W := samples_of p (all_out r) in
   let I := preps_of p evs in
   StronglySorted (fun a b : bp => (fst a < fst b)%Q) W /\
   (forall t c, In (t, c) W -> c = count_at I t) /\
   (forall t, den 0 W t = count_at I t) /\
-  (forall iv, In iv I -> (exists x, In x W /\ (fst x == fst iv)%Q) /\ (exists x, In x W /\ (fst x == snd iv)%Q)) /\
+  (forall iv, In iv I -> (fst iv < snd iv)%Q ->
+     (exists x, In x W /\ (fst x == fst iv)%Q) /\ (exists x, In x W /\ (fst x == snd iv)%Q)) /\
   (forall t1 t2, (t1 <= t2)%Q -> (forall x, In x W -> ~ ((t1 < fst x)%Q /\ (fst x <= t2)%Q)) ->
                  count_at I t1 = count_at I t2) /\
   lastc 0 W = 0 /\
-  (I = [] -> W = []).
+  (Forall (fun iv => ~ (fst iv < snd iv)%Q) I -> W = []).
 Proof.
-  intros Hr Hne Hso W I.
-  assert (H : series_ok I W) by (apply (counter_correct keep evs r p Hr); split; assumption).
+  intros Hr Hso W I.
+  assert (H : series_ok I W) by (apply (counter_correct keep evs r p Hr); assumption).
   repeat split.
   - apply (ok_sorted _ _ H).
   - apply (ok_samples _ _ H).
   - apply (ok_den _ _ H).
-  - apply (ok_cover _ _ H iv H0).
-  - apply (ok_cover _ _ H iv H0).
+  - apply (ok_cover _ _ H iv H0 H1).
+  - apply (ok_cover _ _ H iv H0 H1).
   - intros t1 t2 Hle Hno. now apply (no_change_without_sample I W t1 t2 H).
   - apply (ok_last0 _ _ H).
   - apply (ok_empty _ _ H).
+Qed.
+
+(* an interval with end <= start is in flight at no time *)
+Lemma count_at_empty_iv ivs s e t : (e <= s)%Q -> count_at ((s, e) :: ivs) t = count_at ivs t.
+Proof.
+  intros H. unfold count_at. cbn [filter]. unfold inside at 1. cbn [fst snd].
+  destruct (Qle_b_spec s t), (Qlt_b_spec t e); cbn [andb]; try reflexivity. lra.
+Qed.
+
+(* the guard of create_counter (fix of the zero-duration defect): an interval with end <= start emits
+   nothing and leaves every pid's queue as it was (the pid merely gets its, possibly empty, dict entry) *)
+Theorem empty_interval_ignored qs p s e :
+  (e <= s)%Q ->
+  snd (create_counter qs p s e) = [] /\ forall p', qof p' (fst (create_counter qs p s e)) = qof p' qs.
+Proof.
+  intros H. unfold create_counter. destruct (Qle_b_spec e s); [|contradiction]. cbn [fst snd].
+  split; [reflexivity|]. intros p'. apply qof_touch.
 Qed.
 
 Theorem prep_removed keep evs r :
@@ -744,20 +850,14 @@ Proof.
     apply Forall_app; split; [eapply Fimp; [exact HMs|]|eapply Fimp; [exact HP|]]; cbn; intros; lra.
 Qed.
 
-(* the property does NOT hold for an empty interval (dur = 0): two samples at the same time, the first
-   one claiming a Prep in flight where there is none *)
-Definition zero_witness : list ev := [E "X" "k Cmpt Prep" 0 (1 # 1) (Some (0 # 1)) 0 0].
+(* the input that used to break the property (a Prep slice with dur = 0 after a normal one): now the
+   empty slice leaves no trace in the series *)
+Definition zero_witness : list ev :=
+  [E "X" "a Cmpt Prep" 0 (0 # 1) (Some (4 # 1)) 0 0; E "X" "b Cmpt Prep" 0 (10 # 1) (Some (0 # 1)) 1 0;
+   E "X" "c Cmpt Prep" 7 (11 # 1) (Some (0 # 1)) 2 0].
 
-Theorem zero_length_refuted :
-  exists evs r,
-    StronglySorted ts_le evs /\ StronglySorted start_le (preps_of 0 evs) /\
-    run_stage false evs = Ok r /\
-    ~ tsorted (samples_of 0 (all_out r)) /\
-    exists t c, In (t, c) (samples_of 0 (all_out r)) /\ c <> count_at (preps_of 0 evs) t.
-Proof.
-  exists zero_witness. eexists. split; [repeat constructor|]. split; [repeat constructor|].
-  split; [vm_compute; reflexivity|]. split.
-  - cbn. intros H. inversion H as [|? ? _ Hf]; subst. inversion Hf as [|? ? Hlt _]; subst.
-    unfold tlt in Hlt. cbn in Hlt. lra.
-  - exists (1 # 1)%Q, 1. split; [cbn; now left|]. vm_compute. discriminate.
-Qed.
+Lemma zero_witness_ok :
+  exists r, run_stage false zero_witness = Ok r /\
+    map (fun x => (Qred (fst x), snd x)) (samples_of 0 (all_out r)) = [((0 # 1)%Q, 1); ((4 # 1)%Q, 0)] /\
+    samples_of 7 (all_out r) = [] /\ passed (all_out r) = [].
+Proof. eexists. split; [vm_compute; reflexivity|]. repeat split; vm_compute; reflexivity. Qed.
